@@ -70,6 +70,10 @@ func headerMutations() []mutation {
 			h.SetTotalFees(new(big.Int).Add(h.TotalFees(), big.NewInt(1)))
 			return true
 		}),
+		hm("uncledEntropy+1", func(h *types.Header) bool {
+			h.SetUncledEntropy(new(big.Int).Add(h.UncledEntropy(), big.NewInt(1)))
+			return true
+		}),
 		hm("zoneManifestHash", func(h *types.Header) bool {
 			h.SetManifestHash(bump(h.ManifestHash(sim.Zone)), sim.Zone)
 			return true
@@ -184,6 +188,64 @@ func bodyMutations(recompute bool) []mutation {
 			b.Body().SetTransactions(l)
 			return true
 		}),
+		bm("drop-uncle", func(b *types.WorkObject) bool {
+			if recompute {
+				// with the uncle hash recomputed this is a block an honest miner may build (the shares a
+				// block carries are its miner's choice and are rewarded by later blocks; a share with a
+				// changed coinbase still meets the share threshold one time in eight)
+				return false
+			}
+			us := append([]*types.WorkObjectHeader{}, b.Uncles()...)
+			if len(us) == 0 {
+				return false
+			}
+			b.Body().SetUncles(us[1:])
+			return true
+		}),
+		bm("duplicate-uncle", func(b *types.WorkObject) bool {
+			us := append([]*types.WorkObjectHeader{}, b.Uncles()...)
+			if len(us) == 0 {
+				return false
+			}
+			b.Body().SetUncles(append(us, types.CopyWorkObjectHeader(us[0])))
+			return true
+		}),
+		bm("swap-uncles", func(b *types.WorkObject) bool {
+			if recompute {
+				// with the uncle hash recomputed this is a block an honest miner may build (the shares a
+				// block carries are its miner's choice and are rewarded by later blocks; a share with a
+				// changed coinbase still meets the share threshold one time in eight)
+				return false
+			}
+			us := append([]*types.WorkObjectHeader{}, b.Uncles()...)
+			if len(us) < 2 || us[0].Hash() == us[1].Hash() {
+				return false
+			}
+			us[0], us[1] = us[1], us[0]
+			b.Body().SetUncles(us)
+			return true
+		}),
+		bm("redirect-uncle-coinbase", func(b *types.WorkObject) bool {
+			if recompute {
+				// with the uncle hash recomputed this is a block an honest miner may build (the shares a
+				// block carries are its miner's choice and are rewarded by later blocks; a share with a
+				// changed coinbase still meets the share threshold one time in eight)
+				return false
+			}
+			us := append([]*types.WorkObjectHeader{}, b.Uncles()...)
+			if len(us) == 0 {
+				return false
+			}
+			u := types.CopyWorkObjectHeader(us[0])
+			to := sim.QuaiKeys(1)[0].Addr
+			if to.Equal(u.PrimaryCoinbase()) {
+				to = sim.QuaiKeys(2)[1].Addr
+			}
+			u.SetPrimaryCoinbase(to)
+			us[0] = u
+			b.Body().SetUncles(us)
+			return true
+		}),
 		bm("drop-outbound-etx", func(b *types.WorkObject) bool {
 			l := etxs(b)
 			if len(l) == 0 {
@@ -277,6 +339,13 @@ func TestC07_OwnAndMutants(t *testing.T) {
 			}
 			// assemble + seal, but do not submit yet when mutants are to be tried first
 			o := a.DrawMineOpts(t, order)
+			if a.ZoneNumber() >= 3 {
+				for k := rapid.SampledFrom([]int{0, 0, 1, 2, 3}).Draw(t, "nShares"); k > 0; k-- {
+					if _, err := a.WorkShare(t); err != nil {
+						t.Fatalf("HARNESS: workshare: %v", err)
+					}
+				}
+			}
 			ph, err := n.Pending(a.Heads, o)
 			if err != nil {
 				t.Fatalf("HARNESS: pending header: %v\n%s", err, strings.Join(a.Log, "\n"))
@@ -338,6 +407,9 @@ func TestC07_OwnAndMutants(t *testing.T) {
 			ownBlocks++
 			if len(b.Zone().Transactions()) > 0 {
 				stats.Label(part, "own_block_with_txs")
+			}
+			if len(b.Zone().Uncles()) > 0 {
+				stats.Label(part, "own_block_with_uncles")
 			}
 		}
 		if err := a.Adopt(); err != nil {
